@@ -158,6 +158,18 @@ def option_space(cls, tier):
                     pairs.append({key1: val1, key2: val2})
     capped = len(pairs) > maxpairs
     out += pairs[:maxpairs]
+    # triples of keys with their first (valid) value, and all keys together
+    triples = []
+    for i, key1 in enumerate(klist):
+        for j, key2 in enumerate(klist[i + 1:], i + 1):
+            for key3 in klist[j + 1:]:
+                triples.append({k: option_values(k, keys[k])[0]
+                                for k in (key1, key2, key3)})
+    maxtriples = 40 if tier == "quick" else 400
+    capped = capped or len(triples) > maxtriples
+    out += triples[:maxtriples]
+    if len(klist) > 3:
+        out.append({k: option_values(k, keys[k])[0] for k in klist})
     return out, capped
 
 
@@ -224,6 +236,7 @@ class _Session:
         self.active = False
         self.depth = 0
         self.calls = []
+        self.stack = []
         self.inject_at = None
         self.injected = False
 
@@ -244,12 +257,15 @@ def _nested(kind, callee, error_factory, orig, args, kwargs):
     rec = {"kind": kind, "label": label,
            "n": _label_counts(ses.calls, label), "exit": "ok"}
     idx = len(ses.calls)
+    # index of the outermost nested call this one is (transitively) made from
+    rec["top"] = ses.stack[0] if ses.stack else idx
     ses.calls.append(rec)
     if ses.inject_at == idx:
         ses.injected = True
         rec["exit"] = "injected"
         raise error_factory()
     ses.depth += 1
+    ses.stack.append(idx)
     try:
         return orig(*args, **kwargs)
     except BaseException as err:
@@ -258,6 +274,7 @@ def _nested(kind, callee, error_factory, orig, args, kwargs):
         raise
     finally:
         ses.depth -= 1
+        ses.stack.pop()
 
 
 def _wrap_trans_method(func, cls, meth):
@@ -331,6 +348,7 @@ def session(inject_at=None):
     ses.active = True
     ses.depth = 0
     ses.calls = []
+    ses.stack = []
     ses.inject_at = inject_at
     ses.injected = False
     try:
@@ -529,10 +547,24 @@ def loaded_kernel_schedules(psy_root):
     return out
 
 
+def _class_skeleton(root):
+    from psyclone.psyir.nodes import Node
+    lines = []
+    for node in root.walk(Node):
+        ann = ",".join(sorted(getattr(node, "annotations", []) or []))
+        lines.append(f"{node.depth - root.depth}:{type(node).__name__}"
+                     + (f"[{ann}]" if ann else ""))
+    return "\n".join(lines)
+
+
 def fingerprint_psy_fast(psy_root):
-    """Non-mutating part of the PSy-layer fingerprint."""
-    return {"symtab": _tables(psy_root),
-            "tree": _skeleton(psy_root) + "\n" + kernel_state(psy_root)}
+    """Non-mutating part of the PSy-layer fingerprint.  'tree' (class
+    skeleton + kernel flags) is judged; 'lazy' (symbol tables and view()) is
+    NOT judged by itself: DSL-level PSyIR materialises loop-bound expressions
+    and tagged symbols on first query (e.g. by dependency analysis), which
+    does not alter the generated code."""
+    return {"tree": _class_skeleton(psy_root) + "\n" + kernel_state(psy_root),
+            "lazy": _tables(psy_root) + "\n" + _skeleton(psy_root)}
 
 
 # ---------------------------------------------------------------------------
